@@ -280,6 +280,8 @@ pub struct ContainerDec {
     pub locators: Vec<([u8; 16], u64, u64)>, // uuid, size, offset (relative to the container start)
     /// bytes the container really occupies (header .. tail), may differ from header.size (F9)
     pub real_size: u64,
+    /// the 24 application bytes of the container header
+    pub free_data: Vec<u8>,
 }
 
 #[derive(Clone, Debug)]
@@ -456,6 +458,7 @@ fn decode_container(cx: &mut Ctx, hdr: &PackHeader, start: u64, strict_size: boo
         start,
         locators,
         real_size,
+        free_data: h[36..60].to_vec(),
     })
 }
 
